@@ -34,15 +34,29 @@ const c14Meta = "<>|&;$"
 type c14Case struct {
 	Query string `json:"query_quoted"` // strconv-quoted
 	Limit *int   `json:"limit,omitempty"`
+	Then  string `json:"then_query_quoted,omitempty"` // a second query validated afterwards (accepted answers are values)
 }
 
 // c14Eval checks one query; returns violations and an observation.
+// the accepted answer of the previous evaluation, as handed out (c14Held) and a private copy of its
+// bytes taken at that moment (c14HeldCopy), with the query it belonged to: an accepted query is a
+// value - validating something else afterwards must not change it.
+var c14Held, c14HeldCopy, c14HeldQuery string
+
 func c14Eval(q string) (vs []lib.Violation, obs string, accepted bool, out string) {
 	out, err := validation.ValidateQuery(q)
 	obs = fmt.Sprintf("%q,%v", out, err != nil)
 	mk := func(key, what string, observed any) {
 		vs = append(vs, lib.Violation{Key: key, What: what, Case: c14Case{Query: fmt.Sprintf("%q", q)}, Observed: observed,
 			GoTest: fmt.Sprintf("out, err := validation.ValidateQuery(%q) // then re-validate out", q)})
+	}
+	if c14Held != c14HeldCopy {
+		vs = append(vs, lib.Violation{Key: "accepted-output-changed-later", What: fmt.Sprintf("the accepted answer %q for query %q reads %q after a later ValidateQuery(%q)", truncStr(c14HeldCopy, 60), truncStr(c14HeldQuery, 60), truncStr(c14Held, 60), truncStr(q, 60)),
+			Case: c14Case{Query: fmt.Sprintf("%q", c14HeldQuery), Then: fmt.Sprintf("%q", q)}, Observed: truncStr(c14Held, 80), Expected: truncStr(c14HeldCopy, 80)})
+	}
+	c14Held, c14HeldCopy, c14HeldQuery = "", "", ""
+	if err == nil {
+		c14Held, c14HeldCopy, c14HeldQuery = out, strings.Clone(out), q
 	}
 	// reference acceptance predicate
 	tooLong := len(q) > constants.MaxQueryLength
@@ -261,7 +275,7 @@ func c14Run(c *lib.Ctx) {
 func init() {
 	lib.Register(&lib.Check{
 		ID: "C14", Level: "model_checking",
-		Rule:      "every string of <=3 (quick) / <=5 (thorough) atoms over a 46-atom alphabet (ASCII, all Unicode spaces, controls, metacharacters and fullwidth twins of them, invalid UTF-8) plus run-length families atom^n·tail around 250/333/500/1000 bytes, each through ValidateQuery and re-validation; every limit in [-300,300] plus int corners (MaxInt/k, MinInt/k for k<=16 and all powers of two, each +-2) through ValidateLimit; non-trivial = rejected, or accepted with an output different from the input",
+		Rule:      "every string of <=3 (quick) / <=5 (thorough) atoms over a 46-atom alphabet (ASCII, all Unicode spaces, controls, metacharacters and fullwidth twins of them, invalid UTF-8) plus run-length families atom^n·tail around 250/333/500/1000 bytes, each through ValidateQuery and re-validation, the accepted answer of each evaluation held across the next one (an accepted query must not change when something else is validated afterwards); every limit in [-300,300] plus int corners (MaxInt/k, MinInt/k for k<=16 and all powers of two, each +-2) through ValidateLimit; non-trivial = rejected, or accepted with an output different from the input",
 		Assume:    []string{"Unicode classes per Go's unicode tables", "acceptance of strings whose only content is invalid UTF-8 bytes is left undecided (either answer accepted)"},
 		QuickSecs: 60, ThorSecs: 600,
 		Run: c14Run,
@@ -275,6 +289,19 @@ func init() {
 			}
 			var q string
 			fmt.Sscanf(cs.Query, "%q", &q)
+			if cs.Then != "" {
+				var q2 string
+				fmt.Sscanf(cs.Then, "%q", &q2)
+				c14Eval(q)
+				vs, _, _, _ := c14Eval(q2)
+				var out []lib.Violation
+				for _, v := range vs {
+					if v.Key == "accepted-output-changed-later" {
+						out = append(out, v)
+					}
+				}
+				return out
+			}
 			vs, _, _, _ := c14Eval(q)
 			return vs
 		},
